@@ -240,6 +240,35 @@ func runC18(c *Ctx) {
 				})
 				c.Pred("tamper", "altered-octet-rejected", fmt.Sprintf("bit=%d alg=%d %s", bit, alg, in), res == "err", res, "err", true)
 			}
+			// the signature lengthened: a zero octet in front of it (for ECDSA: in front of r and of s, the same two numbers),
+			// RDLENGTH raised to match — the SIG RDATA is altered, verification fails
+			{
+				siglen := map[uint8]int{dns.ECDSAP256SHA256: 64, dns.ECDSAP384SHA384: 96, dns.ED25519: 64}[alg]
+				if siglen == 0 {
+					siglen = len(out) - (len(packed) + 11 + 18 + len(wireOf([][]byte{[]byte("signer"), []byte("example")})))
+				}
+				if siglen > 0 && siglen < len(out)-sigRdata {
+					body, sg := out[:len(out)-siglen], out[len(out)-siglen:]
+					var t2 []byte
+					if alg == dns.ECDSAP256SHA256 || alg == dns.ECDSAP384SHA384 {
+						t2 = append(append([]byte{}, body...), 0)
+						t2 = append(t2, sg[:siglen/2]...)
+						t2 = append(append(t2, 0), sg[siglen/2:]...)
+					} else {
+						t2 = append(append(append([]byte{}, body...), 0), sg...)
+					}
+					rl := int(t2[sigRdata-2])<<8 | int(t2[sigRdata-1])
+					rl += len(t2) - len(out)
+					t2[sigRdata-2], t2[sigRdata-1] = byte(rl>>8), byte(rl)
+					res := guard(func() string {
+						if err := s0.Verify(key, t2); err != nil {
+							return "err"
+						}
+						return "ok"
+					})
+					c.Pred("tamper", "lengthened-signature-rejected", fmt.Sprintf("alg=%d %s", alg, in), res == "err", res, "err", true)
+				}
+			}
 			for cut := 12; cut < len(out); cut += step {
 				res := guard(func() string {
 					if err := s0.Verify(key, out[:cut]); err != nil {
